@@ -23,7 +23,7 @@ OBSERVER_STEPS = ('dump_to_path', 'dump_to_zip', 'stream', 'checkpoint')
 
 def _expand(payload, sub):
     rng = random.Random(payload['gseed'])
-    tables = PL.gen_tables(rng, big_p=0.12)
+    tables = PL.gen_tables(rng, big_p=0.2)
     stats = {}
     sc = PL.gen_pipeline(rng, tables, payload['nsteps'], stats=stats)
     sc['source_kinds'] = [rng.choice(['list', 'gen']) for _ in tables]
